@@ -374,8 +374,8 @@ def clauses(tier, seed):
 
 
 def _pyvc_clauses():
-  from contracts import fourier_contracts
-  return [c for c in fourier_contracts.clauses() if any(k in c.name for k in ('shift ==', 'real_basis_derivative pairing', 'with_zero_imag pairing', 'canary'))]
+  from contracts import fourier_contracts, grid_contracts
+  return [c for c in fourier_contracts.clauses() if any(k in c.name for k in ('shift ==', 'real_basis_derivative pairing', 'with_zero_imag pairing', 'canary'))] + grid_contracts.clauses()
 
 
 MANIFEST = {
